@@ -43,6 +43,9 @@ def get(name):
   if name.startswith(('shape:', 'hand:')):
     from corpus import sched_designs
     return sched_designs.get(name)
+  if name.startswith('cyc:'):
+    from corpus import cycle_designs
+    return cycle_designs.get(name)
   if name.startswith('x:'):
     from corpus import tv_extra
     return tv_extra.DESIGNS[name]
